@@ -74,7 +74,7 @@ def gen_tx(rng, names, kind=None, max_in=8, max_out=8, min_out=0, big=True):
     ins = []
     for i in range(nin):
         if kind == 'coinbase' and i == 0:
-            txid = '00' * 32; idx = 0xffffffff
+            txid = '00' * 32; idx = rng.choice([0xffffffff, 0xffffffff, 0, 1, rng.randrange(0, 2 ** 32)])
             s = Script([rbytes(rng, rng.choice([2, 8, 40, 100])).hex()])
         else:
             txid = rbytes(rng, 32).hex()
